@@ -280,6 +280,32 @@ static void cmd_schema_dump(void) {
     printf(";%d;%d", (int)(carquet_schema_get_element(s, ne) == NULL), (int)(carquet_schema_get_element(s, -1) == NULL));
 }
 
+/* E:<rg>:<col>  statistics / pruning calls (memory-safety exerciser; results printed compactly) */
+static void cmd_stats(char* t) {
+    if (!g_reader) { fputs(" E=noreader", stdout); return; }
+    int rg = atoi(field(t, 1)), col = atoi(field(t, 2));
+    carquet_column_statistics_t st; memset(&st, 0, sizeof st);
+    carquet_status_t s1 = carquet_reader_column_statistics(g_reader, rg, col, &st);
+    size_t touched = 0;
+    if (s1 == CARQUET_OK && st.has_min_max) {
+        /* touch every byte the library says it returned */
+        const uint8_t* a = (const uint8_t*)st.min_value; const uint8_t* b = (const uint8_t*)st.max_value;
+        for (int32_t i = 0; i < st.min_value_size; i++) touched += a[i];
+        for (int32_t i = 0; i < st.max_value_size; i++) touched += b[i];
+    }
+    uint8_t* probe = (uint8_t*)calloc(1, 16);      /* exact-size probe buffers per call below */
+    bool might = true; int32_t idx[4];
+    carquet_status_t s2 = CARQUET_OK; int32_t nf = 0;
+    for (int op = 0; op < 6; op++) {
+        uint8_t* p8 = (uint8_t*)malloc(8); memcpy(p8, probe, 8);
+        s2 = carquet_reader_row_group_matches(g_reader, rg, col, (carquet_compare_op_t)op, p8, 8, &might);
+        nf = carquet_reader_filter_row_groups(g_reader, col, (carquet_compare_op_t)op, p8, 8, idx, 4);
+        free(p8);
+    }
+    free(probe);
+    printf(" E=%d:%d:%d:%d", (int)s1, (int)s2, (int)nf, (int)(touched & 1));
+}
+
 static void cmd_get_column(char* t) {
     if (!g_reader) { fputs(" K=noreader", stdout); return; }
     recheck_last();
@@ -535,6 +561,7 @@ int main(void) {
                 case 'M': cmd_meta(); break;
                 case 'K': cmd_get_column(t); break;
                 case 'H': cmd_schema_dump(); break;
+                case 'E': cmd_stats(t); break;
                 case 'R': cmd_read(t); break;
                 case 'P': cmd_skip(t); break;
                 case 'D': cmd_drain(t); break;
